@@ -53,6 +53,7 @@ RULE = (
     "comment/empty rows). A case is non-trivial when it has >= 2 rows of one kind (a defect lands on a row other than "
     "the first of its kind) or >= 2 rewrites; distinct by hash of rows + rewrite program."
     "Check rows with an empty rule and a valid rule in the cell behind; DistinctCount rules that cannot be evaluated for ten different reasons."
+    "CIDs with line breaks in cells also go through create_cid_from_string; one seed field has an example with CR LF."
 )
 ASSUMPTIONS = [
     "neutral, never judged: a check between field rows naming only earlier fields; overlapping range items; 'csv' as "
